@@ -17,7 +17,7 @@ from vt.world import World, WSpec
 ID = 'C07'
 KIND = 'explorer'
 LEVEL = 'model_checking'
-GRAPH = {'quick': 2, 'thorough': 4}
+GRAPH = {'quick': 2, 'thorough': 3}
 BUDGET = {'quick': 900, 'thorough': 10800}
 RULE = ('daemon sockets are REAL CircusSockets (inet on 127.0.0.1 port 0, unix in a scratch directory, one so_reuseport set) inside the '
         'explorer process, workers are simulated; breadth-first search over canonical quiescent states with bursts of '
@@ -49,17 +49,17 @@ def scenarios(tier):
 
 
 def plan(tier, gen):
-    return (1, 0) if tier == 'quick' or gen > 2 else (1, 1)
+    return (1, 0) if tier == 'quick' or gen > 1 else (1, 1)
 
 
 def bound(tier, scn, gen=1):
-    return 1 if tier == 'quick' or gen > 2 else 2
+    return 1 if tier == 'quick' or gen > 1 else 2
 
 
 def bounds(tier):
     return {'socket_sets': list(SETS) if tier != 'quick' else ['inet+unix', 'inet+reuse'], 'generations': GRAPH[tier],
             'watchers': 'u (use_sockets, refers to every socket of the set, n=2), p (no use_sockets, n=1)',
-            'burst': '1 event (quick), request + death in generations 1-2 (thorough)'}
+            'burst': '1 event (quick); thorough: request + death in generation 1, 1 event in generations 2-3'}
 
 
 class ClashReload(object):
